@@ -33,6 +33,18 @@ Definition mon_C13 (sc : scen) (obs : list callobs) : bool :=
             rcode_eqb (co_ret o2) RWouldBlock && holds_sim (co_holds o2) pre && holds_sim (co_holds o3) pre
       | None => false
       end
+  | [(t, AKeyGet); (_, AAcquire c m (FScopedTry lent body))], [o1; o2] =>
+      (* scoped_try_lock / scoped_try_read: the closure runs (the call returns Ok, or unwinds if the closure panics)
+         exactly when every leaf is available; either way the hold table is afterwards as it was *)
+      match nth_error (sc_colls sc) c with
+      | Some s =>
+          let pre := pre_holds sc in
+          let expect := forallb (fun l => leaf_avail m (nth l pre raw_free)) (leaves s) in
+          (if expect then rcode_eqb (co_ret o2) ROk || rcode_eqb (co_ret o2) RPanicked
+           else rcode_eqb (co_ret o2) RWouldBlock) &&
+          holds_sim (co_holds o2) pre
+      | None => false
+      end
   | _, _ => false
   end.
 
